@@ -299,7 +299,7 @@ class Resolver:
                 if _self_dependent(flow, d):
                     outer.stopped.append((node.id, "loop-carried"))
                     return node
-                return outer.resolve(copy.deepcopy(val), d.node, depth + 1)
+                return outer.resolve(copy.deepcopy(val), d.node, depth + 1, bound=set(bound) if bound else None)
 
             def _comp(self, node):
                 saved = set(self.bound)
